@@ -266,6 +266,9 @@ func checkC18(c *Ctx) {
 						}
 					}
 				case "err":
+					if t.Label == "os.Stat" || t.Label == "os.Lstat" {
+						break // the error of an existence probe is an answer, not a failure of the command (W14 judges its use)
+					}
 					if failed == "" {
 						failed = "non-nil error from " + t.Label
 						failPos = t.Pos
